@@ -14,7 +14,7 @@ import json
 
 from hypothesis import strategies as st
 
-from ..core import fmt_exc, innermost_pkg_frame, run_given, short
+from ..core import HarnessError, fmt_exc, innermost_pkg_frame, run_given, short
 from ..gen import parsers as P
 from ..gen import types as G
 from . import _rt
@@ -183,6 +183,10 @@ def parse_via(channel, recipe, obj, extra_argv=None):
 
 
 def run_case(ctx, case):
+    if case.get("kind") == "required":
+        if case.get("mutation") != "none":
+            required_family(ctx, only=case)
+        return
     recipe = case["recipe"]
     obj, poss = all_positions(case)
     base = parse_via("object", recipe, obj)
@@ -267,6 +271,107 @@ def run_case(ctx, case):
     ctx.sample()
 
 
+def required_family(ctx, only=None):
+    """plain required arguments (top level, in a group, in a subcommand, in a nested subcommand) x omitted / null x channels x the
+    defaults flag of the parse methods: enumerated completely (small)"""
+    import itertools
+
+    from jsonargparse import ArgumentError, ArgumentParser
+
+    def build():
+        p = ArgumentParser(exit_on_error=False, env_prefix="APP", default_env=False)
+        p.add_argument("--cfg", action="config")
+        p.add_argument("--top", type=str, required=True)
+        p.add_argument("--grp.need", type=int, required=True)
+        p.add_argument("--opt", type=int, default=1)
+        sc = p.add_subcommands(required=True)
+        fit = ArgumentParser(exit_on_error=False)
+        fit.add_argument("--data", type=str, required=True)
+        fit.add_argument("--epochs", type=int, default=3)
+        sc.add_subcommand("fit", fit)
+        ev = ArgumentParser(exit_on_error=False)
+        ev.add_argument("--ckpt", type=str, required=True)
+        sc.add_subcommand("eval", ev)
+        sc2 = ev.add_subcommands(required=True, dest="how")
+        fast = ArgumentParser(exit_on_error=False)
+        fast.add_argument("--n", type=int, required=True)
+        sc2.add_subcommand("fast", fast)
+        return p
+
+    full = {"fit": {"top": "t", "grp": {"need": 1}, "subcommand": "fit", "fit": {"data": "d"}},
+            "eval": {"top": "t", "grp": {"need": 1}, "subcommand": "eval", "eval": {"ckpt": "c", "how": "fast", "fast": {"n": 2}}}}
+    required = {"fit": [["top"], ["grp", "need"], ["fit", "data"]], "eval": [["top"], ["grp", "need"], ["eval", "ckpt"], ["eval", "fast", "n"]]}
+
+    def argv_of(obj, sub):
+        out = [f"--top={obj['top']}"] if obj.get("top") is not None else []
+        if (obj.get("grp") or {}).get("need") is not None:
+            out.append(f"--grp.need={obj['grp']['need']}")
+        out.append(sub)
+        sec = obj.get(sub) or {}
+        if sub == "fit":
+            out += [f"--data={sec['data']}"] if sec.get("data") is not None else []
+        else:
+            out += [f"--ckpt={sec['ckpt']}"] if sec.get("ckpt") is not None else []
+            out.append("fast")
+            if (sec.get("fast") or {}).get("n") is not None:
+                out.append(f"--n={sec['fast']['n']}")
+        return out
+
+    def one(case):
+        sub, key, mut, channel, defaults = case["sub"], case["key"], case["mutation"], case["channel"], case["defaults"]
+        obj = copy.deepcopy(full[sub])
+        parent = get_at(obj, key[:-1])
+        if mut == "remove":
+            parent.pop(key[-1])
+        elif mut == "null":
+            parent[key[-1]] = None
+        else:
+            get_at(obj, key[:-2]).pop(key[-2])  # the whole enclosing section is left out; the subcommand stays named
+        p = build()
+        try:
+            if channel == "object":
+                p.parse_object(obj, defaults=defaults)
+            elif channel == "string":
+                p.parse_string(json.dumps(obj), defaults=defaults)
+            elif channel == "--cfg":
+                p.parse_args(["--cfg", json.dumps(obj)], defaults=defaults)
+            else:
+                p.parse_args(argv_of(obj, sub), defaults=defaults)
+            r = ("ok", None)
+        except ArgumentError as ex:
+            r = ("rej", str(ex))
+        except Exception as ex:  # noqa
+            r = ("esc", fmt_exc(ex))
+        ctx.cls(f"required-family:{mut}:{channel}:defaults={defaults}:{r[0]}")
+
+    if only is not None:
+        return one(only)
+    for sub, path, mut, channel, defaults in itertools.product(("fit", "eval"), range(4), ("remove", "null", "remove-section"), ("object", "string", "argv", "--cfg"), (True, False)):
+        if path >= len(required[sub]):
+            continue
+        key = required[sub][path]
+        if mut == "remove-section" and len(key) < 2:
+            continue
+        if mut == "null" and channel == "argv":
+            continue
+        case = {"kind": "required", "sub": sub, "key": key, "mutation": mut, "channel": channel, "defaults": defaults}
+        ctx.begin(case)
+        one(case)
+        ctx.mark_nontrivial_enumerated()
+        if not ctx.end(raise_on_fail=False):
+            return
+    # the unmutated inputs are accepted (precondition of the family)
+    for sub in ("fit", "eval"):
+        for defaults in (True, False):
+            ctx.begin({"kind": "required", "sub": sub, "mutation": "none", "defaults": defaults})
+            try:
+                build().parse_object(copy.deepcopy(full[sub]), defaults=defaults)
+                build().parse_args(argv_of(full[sub], sub), defaults=defaults)
+            except Exception as ex:  # noqa
+                ctx.finding("C06/required-family/complete-input-rejected", {"error": fmt_exc(ex), "sub": sub, "defaults": defaults})
+            ctx.end(raise_on_fail=False)
+
+
 def body(ctx):
     def f(case):
         ctx.begin(case)
@@ -279,14 +384,16 @@ def body(ctx):
 
 def plan(tier):
     if tier == "quick":
-        return [{"n": 120, "depth": 2} for _ in range(16)]
-    return [{"n": 2500, "depth": 2 if i % 2 else 3} for i in range(16)]
+        return [{"kind": "required"}] + [{"n": 120, "depth": 2} for _ in range(16)]
+    return [{"kind": "required"}] + [{"n": 2500, "depth": 2 if i % 2 else 3} for i in range(16)]
 
 
 def run_shard(spec, ctx):
     import warnings
 
     warnings.simplefilter("ignore")
+    if spec.get("kind") == "required":
+        return required_family(ctx)
     run_given(ctx, case_strategy(spec["depth"]), body(ctx), spec["n"])
 
 
